@@ -391,6 +391,11 @@ func (p *PX) term(v ssa.Value, fr *pxFrame, st *pxState) *Term {
 						return &Term{K: TPure, Name: "struct", Args: args, T: x.Type(), key: "struct{" + strings.Join(keys, ",") + "}"}
 					}
 				}
+				// a local array loaded as a whole (`range` over an array of parts): the
+				// cells stored on this path (pxarray.go)
+				if t := p.localArrayValueD(al, fr, st); t != nil {
+					return t
+				}
 			}
 			// *(*T)(unsafe.Pointer(&cell)) with T an integer type of the cell's width:
 			// the bits of the cell read as a T — the same-width conversion
@@ -614,6 +619,18 @@ func (p *PX) term(v ssa.Value, fr *pxFrame, st *pxState) *Term {
 		if name == "" {
 			if m, recv := p.boundLibMethod(x, fr, st); m != nil {
 				name, boundRecv = qualifiedFnName(m), recv
+			}
+		}
+		// a pure getter called through a method value known on this path (`locate :=
+		// target.Pointer; … locate()`): the same pure term as `target.Pointer()`, the
+		// receiver being the value bound when the method value was made (pxfuncs.go)
+		if name == "" && !c.IsInvoke() {
+			if _, isB := c.Value.(*ssa.Builtin); !isB {
+				if fn, _, recv := p.funcValueCallee(x, fr, st); fn != nil && recv != nil {
+					if n := qualifiedFnName(fn); pureMethods[n] || p.extraPure[n] {
+						name, boundRecv = n, recv
+					}
+				}
 			}
 		}
 		if pureMethods[name] || p.extraPure[name] {
@@ -847,6 +864,8 @@ func (p *PX) instrs(fr *pxFrame, b *ssa.BasicBlock, from int, st *pxState, k pxC
 			if !p.w.purelyLocalAddr(x.Addr) {
 				p.structStore(x, st)
 			}
+			// rows of a private local array of structs built in place (pxarray.go)
+			p.localRowStore(x, fr, st)
 			// local variable cells and symbolic byte sequences
 			if al, ok := x.Addr.(*ssa.Alloc); ok {
 				vt := p.term(x.Val, fr, st)
@@ -1353,6 +1372,8 @@ func (p *PX) havocLoopKeep(fr *pxFrame, lp *loopInfo, st *pxState, keep map[stri
 						st.env[fresh.key] = top.Intersect(ISet{{is.Min(), new(big.Int).Sub(top.Max(), big.NewInt(step))}})
 						// a loop tested at the bottom keeps `counter < n` at its header (pxhavoc3.go)
 						p.bottomTestBound(fr, lp, phi, fresh, init, st)
+						// rotated loop (`for j := range n`): j < n is an invariant of the header (pxrotated.go)
+						p.rotatedCounterBound(fr, lp, phi, fresh, init, st)
 					} else {
 						st.env[fresh.key] = top.Intersect(ISet{{new(big.Int).Sub(top.Min(), big.NewInt(step)), is.Max()}})
 						p.downCounterBounds(fresh, init, st)
